@@ -106,15 +106,28 @@ def ham_class(label):
     return label.split("[")[0].rstrip("0123456789") if label.startswith("dense") else label.split("[")[0]
 
 
-def build_ham_data(n, h0, h1, chol, trial, wave_data):
-    """ham_data with measurement intermediates built only through the public hamiltonian handler."""
+_CARRY = {}
+
+
+def build_ham_data(n, h0, h1, chol, trial, wave_data, carry=True):
+    """ham_data with measurement intermediates built only through the public hamiltonian handler.
+
+    With carry=True (default) the intermediates are REBUILT ON THE DICTIONARY RETURNED BY THE PREVIOUS BUILD for
+    this trial (h0/h1/chol overwritten), the way response calculations and the 2-RDM mode reuse a prepared
+    ham_data: an intermediate that is cached instead of rebuilt then goes stale and the energies / force biases
+    computed from it disagree with the reference."""
     jnp, _ = trials.lib()
     from ad_afqmc import hamiltonian
 
     ham = hamiltonian.hamiltonian(n)
-    hd = {"h0": h0, "h1": jnp.asarray(np.asarray(h1, dtype=float)),
-          "chol": jnp.asarray(np.asarray(chol, dtype=float).reshape(len(chol), n * n)), "ene0": 0.0}
-    return ham.build_measurement_intermediates(hd, trial, wave_data)
+    key = (trial, n, len(chol))
+    hd = dict(_CARRY[key]) if (carry and key in _CARRY) else {}
+    hd.update({"h0": h0, "h1": jnp.asarray(np.asarray(h1, dtype=float)),
+               "chol": jnp.asarray(np.asarray(chol, dtype=float).reshape(len(chol), n * n)), "ene0": 0.0})
+    out = ham.build_measurement_intermediates(hd, trial, wave_data)
+    if carry:
+        _CARRY[key] = dict(out)
+    return out
 
 
 # ----------------------------------------------------------------------------- jitted call cache
